@@ -74,6 +74,11 @@ def util_ops(r):
     ops.append(("util.intervals_to_samples", (iv, list(lab)), {"sample_size": 0.25}))
     ops.append(("util.sort_labeled_intervals", (iv[::-1].copy(), list(lab)[::-1]), {}))
     ops.append(("util.index_labels", (list(lab),), {}))
+    # segmentation distance with the estimated intervals listed out of order
+    # (only the reference side is required to be ordered)
+    if len(iv2) >= 2:
+        ops.append(("chord.directional_hamming_distance", (iv, iv2[::-1].copy()), {}))
+        ops.append(("chord.overseg", (iv, np.ascontiguousarray(iv2[::-1])), {}))
     ops.append(("util.intervals_to_durations", (iv,), {}))
     # melody with optional voicing/reward arrays, first time 0 and > 0
     for t0 in (0.0, 0.125):
